@@ -435,6 +435,12 @@ func (n *dagScanNode) dagBlockToNodeDoc(block *coreblock.Block) (core.Doc, error
 }
 
 func (n *dagScanNode) addSignatureFieldToDoc(link cidlink.Link, commit *core.Doc) error {
+	sigIndexes := n.commitSelect.DocumentMapping.IndexesByName[request.SignatureFieldName]
+	if len(sigIndexes) == 0 {
+		// the signature has not been requested
+		return nil
+	}
+
 	txn := datastore.CtxMustGetTxn(n.planner.ctx)
 
 	sigIPLDBlock, err := txn.Blockstore().Get(n.planner.ctx, link.Cid)
@@ -446,7 +452,7 @@ func (n *dagScanNode) addSignatureFieldToDoc(link cidlink.Link, commit *core.Doc
 	if err != nil {
 		return err
 	}
-	sigFieldIndex := n.commitSelect.DocumentMapping.IndexesByName[request.SignatureFieldName][0]
+	sigFieldIndex := sigIndexes[0]
 	sigMapping := n.commitSelect.DocumentMapping.ChildMappings[sigFieldIndex]
 
 	sigDoc := sigMapping.NewDoc()
